@@ -889,6 +889,30 @@ def vi_case(rng, idx):
     return names, files, ''.join(keys), expect
 
 
+def vi_undo_case(rng):
+    """vi mode, `:` command lines joined by `|` that leave a buffer in mid-line, then vi's `u`: the undo history of each
+    buffer is its own (repo commit 75e4c2f) -- only the change of the last line is undone."""
+    nf = rng.choice([2, 3])
+    names = ['v%d' % (i + 1) for i in range(nf)]
+    files = {nm: ['%s_%02d_abcdefgh' % (nm, j) for j in range(12)] for nm in names}
+    expect = {nm: list(files[nm]) for nm in names}
+    r1, r2 = rng.range(1, 12), rng.range(1, 12)
+    other = rng.choice(names[1:])
+    keys = [':%ds/^/A/|e! %s\n' % (r1, other)]
+    if rng.chance(1, 2):
+        r3 = rng.range(1, 12)
+        keys.append(':%ds/^/C/|w\n' % r3)                 # a change of the other buffer, written
+        expect[other][r3 - 1] = 'C' + expect[other][r3 - 1]
+    keys.append(':e! %s|%ds/^/B/\n' % (names[0], r2))
+    keys.append('u')
+    expect[names[0]][r1 - 1] = 'A' + expect[names[0]][r1 - 1]
+    if rng.chance(1, 2):
+        keys.append('u')                                    # a second u undoes the first line's change as well
+        expect[names[0]][r1 - 1] = files[names[0]][r1 - 1]
+    keys.append(':w\n:q!\n:q!\n')
+    return names, files, ''.join(keys), expect
+
+
 def run_vi_case(exe, case, timeout=20):
     names, files, keys, expect = case
     fbytes = {k: ''.join(l + '\n' for l in v).encode() for k, v in files.items()}
@@ -1129,6 +1153,8 @@ def run(ctx):
             i += 1
             if c:
                 vcases.append(c)
+        for k in range(12 if ctx.quick else 200):
+            vcases.append(vi_undo_case(rng.fork('vu%d' % k)))
     vout = vlib.pmap(lambda c: run_vi_case(exe, c), vcases)
     for c, bad in zip(vcases, vout):
         res.evaluations += 1
